@@ -645,6 +645,81 @@ theorem enum_qualified (st : NsState) (nsName : List Char) (name : Seg) (values 
     · unfold EnumOk
       rw [valueAsCpp_qualified e v (by rw [hens, hp]; simp) (by rw [hens]; exact splitDots_no_dot nsName) hdot, hens, hp]
 
+/-- **C10.enum_world_resolves** — for every list of enum declarations (any number of enums, several
+in the same nested namespace, in sibling or deeper namespaces, in any processing order, on top of
+any earlier state without that enum), every value `v` of the declaration that counts for
+(`p`, `name`) — the first one processed — resolves from the python expression `p.name.v` to the
+qualified C++ name `p₁::…::pₖ::v`: later declarations, in the same or in other namespaces, never
+take an already declared enum away. `expectedEnum` is the Spec evaluated on the implementation. -/
+theorem enum_world_resolves (defs : List EnumDecl) (p : List Seg) (name v : Seg) (cpp : List Char)
+    (h : expectedEnum defs p name v = some cpp) :
+    ∃ ty, resolvePath (defineAll NsState.empty defs) (p ++ [name, v]) = .ok (.value cpp ty) ∧
+      EnumOk p v cpp := by
+  unfold expectedEnum at h
+  cases hf : firstDecl defs p name with
+  | none => simp [hf] at h
+  | some d =>
+    simp only [hf] at h
+    by_cases hc : v ∈ d.values ∧ '.' ∉ v ∧ notShadowed defs p name = true
+    · rw [if_pos hc] at h
+      have hcpp : qualified p v = cpp := Option.some.inj h
+      obtain ⟨hv, hdot, hsh⟩ := hc
+      unfold firstDecl at hf
+      obtain ⟨hd, pre, post, hdefs, hpre⟩ := List.find?_eq_some_iff_append.1 hf
+      simp only [decide_eq_true_eq] at hd
+      obtain ⟨hdp, hdn⟩ := hd
+      -- the state when `d` is processed: no enum of that name in that namespace yet
+      have hsplit : ∀ (st : NsState) (l1 l2 : List EnumDecl), defineAll st (l1 ++ l2) = defineAll (defineAll st l1) l2 := by
+        intro st l1
+        induction l1 generalizing st with
+        | nil => intro l2; rfl
+        | cons a l1 ih => intro l2; simp only [List.cons_append, defineAll]; exact ih _ l2
+      have hnone : (defineAll NsState.empty pre).findEnum p name = none :=
+        defineAll_find_none pre NsState.empty p name rfl
+          (fun d' hd' hcon => by have := hpre d' hd'; simp [hcon] at this)
+      obtain ⟨e, he, hnew⟩ := findEnum_defineEnum (defineAll NsState.empty pre) d.ns d.name d.values
+      rw [hdp] at he hnew
+      have heq := hnew (by rw [hdn]; exact hnone)
+      rw [hdn] at heq
+      have hfinal : (defineAll NsState.empty defs).findEnum p name = some e := by
+        rw [hdefs, hsplit]
+        simp only [defineAll]
+        exact defineAll_find_mono post _ p name e (by rw [← hdn]; exact he)
+      have hpne : p ≠ [] := by rw [← hdp]; exact splitDots_ne_nil d.ns
+      have hnss : ∀ k, 0 < k → k ≤ p.length → p.take k ∈ (defineAll NsState.empty defs).nss := by
+        intro k h1 h2
+        rw [defineAll_nss_mem]
+        exact Or.inr ⟨d, by rw [hdefs]; simp, by rw [hdp]; exact take_mem_prefixes p k h1 h2⟩
+      have hshadow : p ++ [name] ∉ (defineAll NsState.empty defs).nss := by
+        rw [defineAll_nss_mem]
+        rintro (h0 | ⟨d', hd', hmem⟩)
+        · simp [NsState.empty] at h0
+        · have hpre' := mem_prefixes_isPrefix _ _ hmem
+          unfold notShadowed at hsh
+          rw [List.all_eq_true] at hsh
+          have := hsh d' hd'
+          rw [List.isPrefixOf_iff_prefix.2 hpre'] at this
+          simp at this
+      have hev : v ∈ e.values := by rw [heq]; exact hv
+      refine ⟨e.fullName, ?_, ?_⟩
+      · rw [resolve_enum_value _ p name v e hpne hnss hshadow hfinal hev]
+        have hq : valueAsCpp e v = qualified p v := by
+          rw [valueAsCpp_qualified e v (by rw [heq]; exact hpne)
+            (by rw [heq]; simp only; rw [← hdp]; exact splitDots_no_dot d.ns) hdot, heq]
+        rw [hq, hcpp]
+      · unfold EnumOk; exact hcpp.symm
+    · simp [hc] at h
+
+-- two different enums in one nested namespace, a sibling and a deeper one, both orders
+def exDefs : List EnumDecl :=
+  [⟨"xAOD.Jet".toList, "Color".toList, ["Red".toList, "Blue".toList]⟩,
+   ⟨"xAOD.Jet".toList, "Shape".toList, ["Round".toList]⟩,
+   ⟨"xAOD.Jet.Deep".toList, "Kind".toList, ["K1".toList]⟩,
+   ⟨"xAOD.Other".toList, "Kind".toList, ["K2".toList]⟩]
+example : expectedEnum exDefs ["xAOD".toList, "Jet".toList] "Color".toList "Red".toList = some "xAOD::Jet::Red".toList := by decide
+example : expectedEnum exDefs.reverse ["xAOD".toList, "Jet".toList] "Shape".toList "Round".toList = some "xAOD::Jet::Round".toList := by decide
+example : expectedEnum exDefs ["xAOD".toList, "Jet".toList, "Deep".toList] "Kind".toList "K1".toList = some "xAOD::Jet::Deep::K1".toList := by decide
+
 /-- **C10.enum_first_definition_wins** — defining an enum of the same name in the same namespace
 again changes nothing (the values of the first definition stay). -/
 theorem enum_first_definition_wins (st : NsState) (nsName : List Char) (name : Seg) (v1 v2 : List Seg) :
